@@ -34,6 +34,9 @@
 #include <errno.h>
 #include <unistd.h>
 #include <linux/futex.h>
+#ifndef __NR_futex
+#define __NR_futex 202      /* x86-64; only reached in the VERIF_NO_FUTEX build, where the library never issues the call */
+#endif
 
 #define MAXT 64
 #define MAXBUF 256
@@ -44,7 +47,7 @@ struct thr {
 	struct sbent buf[MAXBUF]; int nbuf;
 	void (*fn)(int); void *(*pfn)(void *); void *parg; int want_join;
 	int needs_empty;          /* pending action is enabled only on an empty buffer */
-	pthread_mutex_t *want_mutex; int32_t *want_futex; int woken; int wake_reason; pthread_cond_t *want_cond;
+	pthread_mutex_t *want_mutex; int32_t *want_futex; int32_t want_val; long wakes; int woken; int wake_reason; pthread_cond_t *want_cond;
 	int sig_pending; long steps; long rets; int masked; int sig_deferred; sigset_t mask; int enosys_next;
 } T[MAXT];
 static struct { pthread_mutex_t *m; int owner; } MX[128]; static int nmx;
@@ -238,10 +241,12 @@ long vh_syscall(long nr, ...){
 		if(op==FUTEX_WAIT){ yield_point(1);
 			if((int32_t)committed_read(ua,4)!=val){ printf("%d futex_wait %s val=%d -> EAGAIN\n", me,l,val); errno=EAGAIN; return -1; }
 			printf("%d futex_wait %s val=%d -> sleep\n", me,l,val);
-			T[me].want_futex=ua; T[me].woken=0; T[me].wake_reason=0; yield_point(0); T[me].want_futex=0;
+			T[me].want_futex=ua; T[me].want_val=val; T[me].woken=0; T[me].wake_reason=0; yield_point(0); T[me].want_futex=0;
 			if(T[me].wake_reason==2){ printf("%d futex_eintr %s\n", me,l); errno=EINTR; return -1; }
 			printf("%d futex_woken %s\n", me,l); return 0; }
-		else { yield_point(1); int n=0; for(int t=0;t<NT && n<val;t++) if(T[t].want_futex==ua && !T[t].woken){ T[t].woken=1; n++; }
+		else { yield_point(1); int n=0;
+			for(int t=0;t<NT && n<val;t++) if(T[t].want_futex==ua && !T[t].woken){ T[t].woken=1; n++; }
+			T[me].wakes++;
 			printf("%d futex_wake %s -> %d\n", me,l,n); return n; } }
 	va_end(ap); printf("unexpected syscall %ld\n", nr); fflush(stdout); _exit(5); }
 /* signal mask emulation: a signal chosen by the schedule while the thread has it blocked stays pending and is delivered when the mask is lifted */
@@ -311,6 +316,13 @@ void vs_run(const char *sched){
 					if(!enabled(t)){ why="blocked"; break; }
 					sem_post(&T[t].go); sem_wait(&ctl); }
 				printf("%d solo %ld %s\n", t, T[t].steps-s0, why); } }
+			continue; }
+		if(c=='@'){ /* run thread t until it has issued its next FUTEX_WAKE (stop right behind it), flushing its own buffer when needed; stops when t blocks */
+			if(*p){ int t=*p++-'0'; if(t>=0&&t<NT){ long w0=T[t].wakes; int guard=0;
+				while(T[t].alive && T[t].wakes==w0 && guard++<5000){
+					if(T[t].needs_empty && T[t].nbuf){ char l[64], v[64]; vs_ploc(l,T[t].buf[0].addr); pval(v,T[t].buf[0].v,T[t].buf[0].sz); commit_one(t); printf("%d flush %s v=%s\n", t, l, v); continue; }
+					if(!enabled(t)) break;
+					sem_post(&T[t].go); sem_wait(&ctl); if(++steps>vs_step_limit){ printf("STEP LIMIT\n"); fflush(stdout); _exit(3);} } } }
 			continue; }
 		if(c=='>'){ /* run thread t until it completes its current operation (next ret event), flushing its own buffer when needed */
 			if(*p){ int t=*p++-'0'; if(t>=0&&t<NT){ long r0=T[t].rets; int guard=0;
